@@ -150,5 +150,3 @@ func cmdVerify(args []string) {
 	}
 }
 
-func cmdCheck(args []string) int  { fmt.Println("not built yet"); return 2 }
-func cmdReplay(args []string) int { fmt.Println("not built yet"); return 2 }
